@@ -416,8 +416,10 @@ pub fn validate_spans(spans: &mut [DataSpan]) -> Result<()> {
         return Ok(());
     }
 
-    // Sort by offset
-    spans.sort_by_key(|s| s.offset);
+    // Sort by offset; at equal offsets the shorter span first, so that a
+    // zero-length span at the start of another span is not mistaken for an
+    // overlap (it shares no byte with it, see `DataSpan::overlaps`).
+    spans.sort_by_key(|s| (s.offset, s.length));
 
     // Check adjacent pairs for overlap
     for i in 0..spans.len() - 1 {
